@@ -15,6 +15,8 @@ Alphabet
                "undef" (200, no-events body), "502" / "499" / "404"                                                     [dev]
       swallow  "none" | "first" | "all": which of the response's events the addon's handle_eq_event returns True for
       delivery "ok" | "lost": the proxied response reaches the viewer / is lost on the way (viewer's ack does not advance) [dev]
+               "tdok": the region is torn down (mark_dead) *between* the request leg and the simulator's answer of this very
+               poll; the answer is then processed and delivered, the circuit is re-opened afterwards                      [dev]
   ("inject", "ev" | "msg")   proxy injects an event (eq_manager.inject_event / inject_message); at most 2 between polls
   ("teardown",)              region torn down (mark_dead) and the viewer starts over on a new circuit with ack undef      [dev]
   In the multi-region search every event carries a trailing region index r: the session has 2 (thorough 3) regions, each with
@@ -270,15 +272,17 @@ class Harness:
 
     def __init__(self, sims: Tuple[str, ...], statuses: Tuple[str, ...] = ("502", "499", "404"), undef: bool = True,
                  inject: Tuple[str, ...] = ("ev", "msg"), teardown: bool = True, rep: bool = True, lost: bool = True,
-                 label: str = "", n_regions: int = 1, swallows: Tuple[str, ...] = ("none", "first", "all")):
+                 label: str = "", n_regions: int = 1, swallows: Tuple[str, ...] = ("none", "first", "all"),
+                 midtd: Optional[bool] = None):
         self.sims, self.statuses, self.undef = tuple(sims), tuple(statuses), undef
         self.inject, self.teardown, self.rep, self.lost = tuple(inject), teardown, rep, lost
         self.label, self.n_regions, self.swallows = label, n_regions, tuple(swallows)
+        self.midtd = teardown if midtd is None else midtd      # teardown between the two legs of one poll
 
     def config(self) -> Dict[str, Any]:
         return {"sims": list(self.sims), "statuses": list(self.statuses), "undef": self.undef, "inject": list(self.inject),
                 "teardown": self.teardown, "rep": self.rep, "lost": self.lost, "n_regions": self.n_regions,
-                "swallows": list(self.swallows)}
+                "swallows": list(self.swallows), "midtd": self.midtd}
 
     # ------------------------------------------------------------------------------------------ explorer API
     def fresh(self) -> World:
@@ -288,7 +292,7 @@ class Harness:
         if ev[0] == "teardown":
             return 1
         if ev[0] == "poll":
-            return int(ev[1] == "rep") + int(ev[2] in STATUS_BODIES) + int(ev[4] == "lost")
+            return int(ev[1] == "rep") + int(ev[2] in STATUS_BODIES) + int(ev[4] in ("lost", "tdok"))
         return 0
 
     def enabled(self, w: World):
@@ -316,6 +320,8 @@ class Harness:
                         emptied = sw == "all" and not m.pending
                         if self.lost and not emptied:
                             evs.append(("poll", am, sim, sw, "lost") + suffix)
+                        if self.midtd and am == "cur" and m.torn_down < 1:
+                            evs.append(("poll", am, sim, sw, "tdok") + suffix)
                 if self.undef:
                     evs.append(("poll", am, "undef", "none", "ok") + suffix)
                 for st in self.statuses:
@@ -419,6 +425,13 @@ class Harness:
             self._bad(w, "spurious-replay", SITE_CACHE,
                       f"region {r}: poll with ack {ack!r} (previous poll: {m.prev and m.prev['ack']!r}) was answered from the "
                       f"replay cache: {flow.response.content[:200]!r}")
+        if delivery == "tdok" and not faked:
+            # the long poll's request leg is done; the region is torn down (circuit dies) before the simulator's answer arrives
+            w.eq_regions[r].mark_dead()
+            m.optional += m.pending
+            m.pending = []
+            m.torn_down += 1
+            w.flags.add("teardown-mid-poll")
         exp_kind, exp_body, ctx = None, None, {}
         if faked:
             w.flags.add("replayed")
@@ -467,8 +480,10 @@ class Harness:
             m.prev = {"ack": ack, "body": norm(act_body) if act_body is not None else None}
         # ---- regions
         self._check_regions(w)
+        if delivery == "tdok" and not faked:
+            w.session.open_circuit(CLIENT_ADDR, w.eq_regions[r].circuit_addr, w.env.transport)     # the viewer comes back later
         # ---- viewer
-        if delivery == "ok":
+        if delivery in ("ok", "tdok"):
             if status == 200 and isinstance(act_body, dict) and "id" in act_body:
                 m.ack = act_body["id"]
         else:
@@ -631,13 +646,13 @@ def searches(tier: str):
         return [
             (Harness(("p", "t", "pt"), label="delivery "), 4, 3),
             (Harness(("t", "eac", "es", "tf", "cr", "tf0", "es_mv", "tf_mv", "es_h3", "eac+es", "tf+tf"), statuses=(), undef=False,
-                     inject=(), teardown=False, label="regions "), 3, 2),
+                     inject=(), teardown=False, midtd=True, label="regions "), 3, 2),
             (Harness(("p", "eac"), n_regions=2, label="multi-region ", **multi), 4, 1),
         ]
     return [
         (Harness(("p", "t", "pt"), label="delivery "), 6, 3),
         (Harness(("t", "eac", "es", "tf", "cr", "tf0", "es_mv", "tf_mv", "es_h3", "eac+es", "tf+tf"), statuses=("502",),
-                 undef=False, inject=("ev",), teardown=False, label="regions "), 4, 3),
+                 undef=False, inject=("ev",), teardown=False, midtd=True, label="regions "), 4, 3),
         (Harness(("p", "eac"), n_regions=2, label="multi-region ", **multi), 5, 2),
         (Harness(("p", "eac"), n_regions=3, label="multi-region(3) ", **multi), 4, 1),
     ]
@@ -681,6 +696,6 @@ def replay(witness):
     cfg = witness.get("config") or {"sims": list(SIM_MENU)}
     h = Harness(tuple(cfg["sims"]), statuses=tuple(cfg.get("statuses", ("502", "499", "404"))), undef=cfg.get("undef", True),
                 inject=tuple(cfg.get("inject", ("ev", "msg"))), teardown=cfg.get("teardown", True), rep=cfg.get("rep", True),
-                lost=cfg.get("lost", True), n_regions=int(cfg.get("n_regions", 1)),
+                lost=cfg.get("lost", True), n_regions=int(cfg.get("n_regions", 1)), midtd=cfg.get("midtd"),
                 swallows=tuple(cfg.get("swallows", ("none", "first", "all"))))
     return explore.replay_history(h, witness["history"])
